@@ -394,7 +394,44 @@ pub fn replay(args: &[String]) {
 			}
 		}
 	}
-	out.summary(json!({"programs": progs.len(), "subjects": ALL_SUBJECTS.len(), "runs": runs, "typed_runs": typed_runs}));
+	// a snapshot taken at EVERY position of a long regime-shaped stream (plateaus, spikes, scale jumps: running sums holding
+	// rounding residue of either sign, cached extrema with ties) restores, and the restored instance continues bit-identically
+	let mut snap_steps = 0u64;
+	for (si, (subject, p)) in ALL_SUBJECTS.iter().enumerate() {
+		if !snap_only {
+			break; // (C13's stage: run with the "snap" mode only)
+		}
+		let params = if *subject == "Conv" { json!([bits(1.0), bits(2.5), bits(0.5)]) } else { json!(p) };
+		let kind = input_kind(subject);
+		for stream in 0..2u64 {
+			let mut g = Gen::new(seed * 104729 + si as u64 * 37 + stream, *subject == "RateOfChange" || kind == 'c');
+			let xs: Vec<In> = (0..260).map(|_| g.input(kind)).collect();
+			let Ok(Ok(mut m)) = build(subject, &params, &xs[0]) else { continue };
+			for i in 0..xs.len() - 1 {
+				if catch(|| m.next(&xs[i])).is_err() {
+					break;
+				}
+				snap_steps += 1;
+				match restore(subject, &m.snapshot()) {
+					Ok(Ok(mut r)) => {
+						let mut o = m.boxed_clone();
+						let (a, b) = (catch(|| o.next(&xs[i + 1])), catch(|| r.next(&xs[i + 1])));
+						let same = match (&a, &b) { (Ok(x), Ok(y)) => x.bits() == y.bits(), (Err(_), Err(_)) => true, _ => false };
+						if !same {
+							out.mismatch(&format!("{subject}:snapshot-every-step:value"), json!({"params": params, "step": i, "stream": stream}));
+							break;
+						}
+					}
+					other => {
+						out.mismatch(&format!("{subject}:snapshot-every-step:err"), json!({"params": params, "step": i, "stream": stream,
+							"msg": match other { Ok(Err(e)) => e, Err(e) => format!("panic: {e}"), _ => String::new() }}));
+						break;
+					}
+				}
+			}
+		}
+	}
+	out.summary(json!({"programs": progs.len(), "subjects": ALL_SUBJECTS.len(), "runs": runs, "typed_runs": typed_runs, "snapshot_steps": snap_steps}));
 }
 
 
